@@ -1,6 +1,8 @@
 package transpiler
 
 import (
+	"fmt"
+
 	logql_transpiler "github.com/metrico/qryn/reader/logql/logql_transpiler_v2/clickhouse_planner"
 	"github.com/metrico/qryn/reader/logql/logql_transpiler_v2/shared"
 	"github.com/metrico/qryn/reader/promql/parser"
@@ -13,8 +15,23 @@ func fingerprintsQuery(ctx *shared.PlannerContext, matchers ...*labels.Matcher) 
 		labelNames []string
 		ops        []string
 		values     []string
+		// bit i set: matcher i needs a row of its label in the index
+		required int64
 	)
-	for _, _matcher := range matchers {
+	for i, _matcher := range matchers {
+		if _matcher.Matches("") {
+			// A series has no index row for a label it lacks, and Prometheus reads a missing label as the
+			// empty value: a matcher that accepts "" ({job!="x"}, {job=~".*"}, {job=""}, {job!~"x"}) holds
+			// unless a row of its label violates it. The index is asked for the inverse matcher and the bit
+			// of that clause has to stay clear.
+			inverse, err := _matcher.Inverse()
+			if err != nil {
+				return nil, err
+			}
+			_matcher = inverse
+		} else {
+			required |= 1 << i
+		}
 		matcher := parser.LabelMatcher{Node: _matcher}
 		labelNames = append(labelNames, matcher.GetLabel())
 		ops = append(ops, matcher.GetOp())
@@ -25,7 +42,49 @@ func fingerprintsQuery(ctx *shared.PlannerContext, matchers ...*labels.Matcher) 
 		}
 		values = append(values, val)
 	}
-	plannerStreamSelect := logql_transpiler.NewStreamSelectPlanner(labelNames, ops, values)
+	if len(matchers) > 0 && required == (1<<len(matchers))-1 {
+		plannerStreamSelect := logql_transpiler.NewStreamSelectPlanner(labelNames, ops, values)
 
-	return plannerStreamSelect.Process(ctx)
+		return plannerStreamSelect.Process(ctx)
+	}
+	return optionalLabelsQuery(ctx, labelNames, ops, values, required)
+}
+
+// optionalLabelsQuery is the label index query of the stream select planner for a matcher list in which
+// only the matchers of the set bits of required need a row: the other clauses are inverted matchers whose
+// bit no row of the series may set.
+func optionalLabelsQuery(ctx *shared.PlannerContext, labelNames, ops, values []string,
+	required int64) (sql.ISelect, error) {
+	clauses := make([]sql.SQLCondition, len(labelNames))
+	for i, name := range labelNames {
+		var valClause sql.SQLCondition
+		switch ops[i] {
+		case "=":
+			valClause = sql.Eq(sql.NewRawObject("val"), sql.NewStringVal(values[i]))
+		case "!=":
+			valClause = sql.Neq(sql.NewRawObject("val"), sql.NewStringVal(values[i]))
+		case "=~":
+			valClause = sql.Eq(logql_transpiler.NewSqlMatch(sql.NewRawObject("val"), values[i]), sql.NewIntVal(1))
+		case "!~":
+			valClause = sql.Eq(logql_transpiler.NewSqlMatch(sql.NewRawObject("val"), values[i]), sql.NewIntVal(0))
+		default:
+			return nil, &shared.NotSupportedError{Msg: fmt.Sprintf("%s op not supported", ops[i])}
+		}
+		clauses[i] = sql.And(sql.Eq(sql.NewRawObject("key"), sql.NewStringVal(name)), valClause)
+	}
+	fpRequest := sql.NewSelect().
+		Select(sql.NewRawObject("fingerprint")).
+		From(sql.NewRawObject(ctx.TimeSeriesGinTableName)).
+		AndWhere(
+			sql.Ge(sql.NewRawObject("date"), sql.NewStringVal(logql_transpiler.FormatFromDate(ctx.From))),
+			logql_transpiler.GetTypes(ctx)).
+		GroupBy(sql.NewRawObject("fingerprint"))
+	if required != 0 {
+		// a series without a row for a required matcher is not selected: only rows that decide a bit are read
+		fpRequest.AndWhere(sql.Or(clauses...))
+	}
+	if len(clauses) > 0 {
+		fpRequest.AndHaving(sql.Eq(logql_transpiler.NewSqlBitSetAnd(clauses), sql.NewIntVal(required)))
+	}
+	return fpRequest, nil
 }
